@@ -452,7 +452,10 @@ func genC07N(seed uint64, run int, tier string) Scenario {
 func runC07N(env *Env, s Scenario) {
 	sc := s.(*NCSession)
 	env.K.MaxHolds = 3
+	env.K.PairCover = true
+	env.K.PairStart = map[string]bool{"chan.close.begin": true, "nc.close.done": true}
 	nr, ok := runNCCommon(env, sc)
+	env.Res.Pairs = env.K.OrderedPairs()
 	env.Res.Shape = fmt.Sprintf("%s holds=%d seg=%s rd=%d", sc.Class, len(sc.Holds), sc.Net.SegMode, sc.ReadDelayUS)
 	env.Res.Nontrivial = true
 	env.Fault("close-"+sc.F.CloseMode, 1)
